@@ -75,6 +75,7 @@ type VC struct {
 	tparamsEnv map[string]types.Type
 	callOrd map[ssa.Instruction]int
 	epochs  int
+	curInstr ssa.Instruction
 	probes  []Probe
 	curState *State // state receiving heap well-formedness facts discovered while translating clauses
 }
